@@ -77,7 +77,7 @@ def construct(env, t, v, cfg, with_neighbours=True, tag=""):
     """buffer + (optional) left neighbour + object + (optional) right neighbour"""
     B = Built()
     B.t, B.v, B.cfg = t, v, cfg
-    B.exp = V.expected(t, v) if not cfg.get("raw_expected") else cfg["raw_expected"]
+    B.exp = cfg["raw_expected"] if "raw_expected" in cfg else V.expected(t, v)
     if cfg["placement"] == "context":
         ctx = env.context()
         B.buf = None
@@ -811,8 +811,19 @@ def sc_c10(env, t, v, cfg):
                 continue
             path, lt, x = pool[st[1] % len(pool)]
             nv = fitting_value(lt, x, stepno + (1 if st[0] == "set" else 2))
+            given = nv
+            size_before = None
+            if st[0] == "sets" and stepno % 2 == 1:
+                # the new text given as a String xobject (living in the same buffer); the recorded size of the
+                # target string cannot change after creation
+                given = xo.String(nv, _buffer=obj._buffer)
+                parent = V.get_at(t, obj, path[:-1])
+                leaf_off = parent._get_offset(path[-1][1])
+                size_before = xo.Int64._from_buffer(obj._buffer, leaf_off)
             try:
-                V.set_at(t, via, path, nv)
+                V.set_at(t, via, path, given)
+                if size_before is not None:
+                    env.check(env.eq(xo.Int64._from_buffer(obj._buffer, leaf_off), size_before), f"C10 step {stepno}: assigning a String object to the string at {path} keeps the size recorded at creation")
             except BaseException as ex:
                 if not isinstance(ex, Exception):
                     raise
@@ -903,7 +914,7 @@ def sc_c10(env, t, v, cfg):
 
 # --------------------------------------------------------------------------
 # C11 -- misuse fails without side effects
-def expect_error(env, B, fn, what, allowed=(Exception,)):
+def expect_error(env, B, fn, what, allowed=(Exception,), constructing=False):
     t, obj = B.t, B.obj
     m = env.mark()
     raised = None
@@ -914,7 +925,10 @@ def expect_error(env, B, fn, what, allowed=(Exception,)):
             raise
         raised = ex
     env.check(raised is not None, f"C11 {what}: an error is raised")
-    env.no_stores_since(m, f"C11 {what}: no byte of the buffer was written" + ("" if raised is not None else " (operation was accepted)"))
+    if not constructing:
+        # (a refused CONSTRUCTION may have written into the space it had just been given: no existing object
+        # lives there; it is judged on the values of the existing objects only)
+        env.no_stores_since(m, f"C11 {what}: no byte of the buffer was written" + ("" if raised is not None else " (operation was accepted)"))
     read_ok(env, t, obj, B.cur_exp, f"C11 {what}: the object keeps its value")
     neighbours_intact(env, B, f"after {what}")
 
@@ -981,6 +995,104 @@ def sc_c11(env, t, v, cfg):
                 expect_error(env, B, lambda: V.set_at(t, obj, path, nv), f"updating the array at {path} (shape {dims}) with a value of length {len(nv)}")
             n += 1
             if n >= cfg.get("max_cases", 3):
+                break
+    elif misuse == "scalar_array":
+        # an array where a single number is expected must not be written over the neighbours of the scalar
+        for path, lt, lv in V.leaves(t, v):
+            if lt[0] != "scalar" or not path:
+                continue
+            val = np.array([1, 2, 3], dtype=V.NPT[lt[1]])
+            expect_error(env, B, lambda: V.set_at(t, obj, path, val), f"assigning an ndarray of 3 numbers to the scalar at {path}")
+            n += 1
+            if n >= cfg.get("max_cases", 2):
+                break
+    elif misuse == "negative_dim":
+        for path, ct, cv in V.compounds(t, v):
+            if ct[0] != "array" or static_size(ct[1]) is None or not any(d is None for d in ct[2]):
+                continue
+            ccls = tg.build(ct)
+            ndyn = sum(1 for d in ct[2] if d is None)
+            args = [-1] + [2] * (ndyn - 1)
+            expect_error(env, B, lambda: ccls(*args, _buffer=B.buf), f"creating an array of type {ccls.__name__} with a negative dimension {args}", constructing=True)
+            break
+    elif misuse == "update_int":
+        # re-initialising an existing array from an integer must not change its shape or size
+        for path, ct, cv in V.compounds(t, v):
+            if ct[0] != "array" or ct[1][0] != "scalar" or len(ct[2]) < 2 or ct[2][0] is not None:
+                continue
+            if path and (V.type_at(t, v, path)[0][0] in ("ref", "uref") or behind_ref(t, v, path)):
+                continue
+            node = V.get_at(t, obj, path)
+            if node is None or int(np.prod([int(d) for d in node._shape])) in (0, int(node._shape[0])):
+                continue
+            total = int(np.prod([int(d) for d in node._shape]))
+            sig = (node._size, [int(d) for d in node._shape])
+            m = env.mark()
+            try:
+                node._update(total)
+            except Exception:
+                pass
+            fresh = tg.build(ct)._from_buffer(node._buffer, node._offset)
+            env.check(env.eq(fresh._size, sig[0]) is True or _truthy(env.eq(fresh._size, sig[0])), f"C11 _update({total}) of the array of shape {sig[1]} at {path or 'root'}: the recorded size cannot change after creation")
+            env.check([int(d) for d in fresh._shape] == sig[1], f"C11 _update({total}) of the array of shape {sig[1]} at {path or 'root'}: the recorded shape cannot change after creation")
+            neighbours_intact(env, B, "after an integer update")
+            n += 1
+            if n >= 2:
+                break
+    elif misuse == "ndarray_extra_axis":
+        for path, ct, cv in V.compounds(t, v):
+            if ct[0] != "array" or ct[1][0] != "scalar":
+                continue
+            if path and (V.type_at(t, v, path)[0][0] in ("ref", "uref") or behind_ref(t, v, path)):
+                continue
+            dims = V.dims_of(ct, cv)
+            if not all(dims):
+                continue
+            val = np.ones(list(dims) + [2], dtype=V.NPT[ct[1][1]])
+            if path:
+                expect_error(env, B, lambda: V.set_at(t, obj, path, val), f"assigning an ndarray of shape {list(val.shape)} (one axis too many) to the array of shape {dims} at {path}")
+            else:
+                expect_error(env, B, lambda: obj._update(val), f"updating the array of shape {dims} with an ndarray of shape {list(val.shape)} (one axis too many)")
+            ccls = tg.build(ct)
+            expect_error(env, B, lambda: ccls(val, _buffer=B.buf), f"constructing {ccls.__name__} from an ndarray of shape {list(val.shape)} (one axis too many for its {len(dims)} axes)", constructing=True)
+            n += 1
+            if n >= cfg.get("max_cases", 2):
+                break
+    elif misuse == "struct_partial":
+        # a dict update whose LATER field cannot be honoured must not leave the EARLIER fields rewritten,
+        # whatever kind of error the refusal is
+        for path, ct, cv in V.compounds(t, v):
+            if ct[0] != "struct" or len(ct[2]) < 2:
+                continue
+            if path and (V.type_at(t, v, path)[0][0] in ("ref", "uref") or behind_ref(t, v, path)):
+                continue
+            fields = list(ct[2])
+            first_ok = None
+            for fn, ft in fields[:-1]:
+                fv = fitting_value(ft, cv[fn]) if ft[0] in ("scalar", "string") else None
+                if fv is not None:
+                    first_ok = (fn, fv)
+                    break
+            if first_ok is None:
+                continue
+            k0 = [fn for fn, _ in fields].index(first_ok[0])
+            for fn, ft in fields[k0 + 1 :]:
+                if ft[0] == "scalar" and ft[1].startswith(("Int", "UInt")) and ft[1] not in ("Int64", "UInt64"):
+                    bad = 2**70
+                elif ft[0] == "array":
+                    bad = 3.5
+                elif ft[0] == "uref":
+                    bad = ("NoSuchMember", {})
+                elif ft[0] == "string":
+                    bad = "x" * 4000
+                else:
+                    continue
+                upd = {first_ok[0]: first_ok[1], fn: bad}
+                node = V.get_at(t, obj, path) if path else V.root_of(t, obj)
+                expect_error(env, B, lambda: node._update(upd), f"a dict update of the struct at {path or 'root'} whose field {fn} gets an impossible value after the valid field {first_ok[0]}")
+                n += 1
+                break
+            if n >= cfg.get("max_cases", 2):
                 break
     elif misuse == "array_shape_instance":
         # another xobject of the SAME array class that takes the same number of bytes but has another shape
@@ -1182,6 +1294,38 @@ def snot(env, a):
     return not a
 
 
+def sc_c10_npindex(env, t, v, cfg):
+    """item get/set with indices given as small NumPy integers (np.int8, np.uint8, np.int16 ...) on arrays
+    long enough for index*stride to exceed the index type's range"""
+    B = construct(env, t, v, cfg)
+    obj = B.obj
+    exp = B.exp
+    dims = V.dims_of(t, v)
+    pos = [tuple(min(d - 1, p) for d in dims) for p in (1, 17, 20, 33)]
+    for k, idx in enumerate(dict.fromkeys(pos)):
+        for ity in (np.int8, np.uint8, np.int16, np.int32):
+            key = tuple(ity(i) for i in idx)
+            key = key if len(key) > 1 else key[0]
+            x = idx[0]
+            cur = exp
+            for i in idx:
+                cur = cur[i]
+            try:
+                got = obj[key]
+            except BaseException as ex:
+                if not isinstance(ex, Exception):
+                    raise
+                env.check(False, f"C10 reading item {idx} with a {ity.__name__} index raised {type(ex).__name__}")
+                continue
+            env.check(V.same(V.readback(t[1], got), cur), f"C10 reading item {idx} with a {ity.__name__} index returns that item")
+            nv = other_scalar(t[1], cur, k + 1)
+            obj[key] = nv
+            exp = V.replace_at(t, exp, (("i", idx),), V.expected(t[1], nv))
+            read_ok(env, t, obj, exp, f"C10 assigning item {idx} with a {ity.__name__} index changes that item and nothing else")
+    neighbours_intact(env, B, "by item assignments with NumPy integer indices")
+    env.reach()
+
+
 SCENARIOS = {
     "c01": sc_c01,
     "c01x": sc_c01_xobject,
@@ -1193,5 +1337,6 @@ SCENARIOS = {
     "c09": sc_c09,
     "c09n": sc_c09_nested,
     "c10": sc_c10,
+    "c10np": sc_c10_npindex,
     "c11": sc_c11,
 }
